@@ -613,9 +613,15 @@ MUTANTS = [
         (PT_H, "                start.run_body( range_pool.back() );\n                range_pool.pop_back();", "                if (range_pool.size() < 7) start.run_body( range_pool.back() );\n                range_pool.pop_back();")]),
     dict(name='c05-seed3-count-rounded-up-by-adding-step', prop='C05', clause='D6', edits=[(PF_H,
         "        Index end = (last - first - Index(1)) / step + Index(1);", "        Index end = Index((last - first) + (step - Index(1))) / step;")]),
+    dict(name='c05-seed4-pop-back-unsigned-char-underflow', prop='C05', clause='D7', edits=[(PT_H,
+        "        my_head = (my_head + MaxCapacity - 1) % MaxCapacity;", "        my_head = (my_head - 1) % MaxCapacity;")]),
+    dict(name='c05-pop-front-steps-by-two', prop='C05', clause='D7', edits=[(PT_H,
+        "        my_tail = (my_tail + 1) % MaxCapacity;", "        my_tail = (my_tail + 2) % MaxCapacity;")]),
     # ---------------------------------------------------------------- C06
     dict(name='c06-join-swapped', prop='C06', clause='D1', edits=[
         (PR_H, "            left_body.join(*zombie_space.begin());", "            zombie_space.begin()->join(left_body);")]),
+    dict(name='c06-seed4-ring-index-masked', prop='C06', clause='D7', edits=[(PT_H,
+        "            my_head = (my_head + 1) % MaxCapacity;", "            my_head = (my_head + 1) & (MaxCapacity - 1);")]),
     dict(name='c06-det-join-swapped', prop='C06', clause='D1', edits=[
         (PR_H, "            left_body.join(right_body);", "            right_body.join(left_body);")]),
     dict(name='c06-lambda-join-swapped', prop='C06', clause='D1', edits=[
@@ -1329,6 +1335,10 @@ BENIGN = [
     }""")]),
     dict(name='c05-b-count-by-quotient-and-remainder', prop='C05', edits=[(PF_H,
         "        Index end = (last - first - Index(1)) / step + Index(1);", "        Index end = Index((last - first) / step + Index((last - first) % step != 0));")]),
+    dict(name='c05-b-ring-step-by-conditional', prop='C05', edits=[(PT_H,
+        "        my_tail = (my_tail + 1) % MaxCapacity;", "        my_tail = depth_t(my_tail + 1 == MaxCapacity ? 0 : my_tail + 1);")]),
+    dict(name='c06-b-ring-back-step-by-conditional', prop='C06', edits=[(PT_H,
+        "        my_head = (my_head + MaxCapacity - 1) % MaxCapacity;", "        my_head = depth_t(my_head == 0 ? MaxCapacity - 1 : my_head - 1);")]),
     dict(name='c05-b-split-point-from-end', prop='C05', edits=[('include/oneapi/tbb/blocked_range.h',
         "        Value middle = r.my_begin + (r.my_end - r.my_begin) / 2u;", "        Value middle = r.my_end - (r.my_end - r.my_begin + 1u) / 2u;")]),
     dict(name='c11-b-tag-check-as-greater-than', prop='C11', edits=[('include/oneapi/tbb/detail/_segment_table.h', """            if (segment == segment_allocation_failure_tag) {
